@@ -173,9 +173,14 @@ type TraceModel struct {
 	IDs    []string // trace ids in order of first acknowledgement
 	byWid  map[int64]*Span
 	nextW  int64
+	// TolerateTag, when set, is asked for every tag-value difference kind "<written>-><returned>" (kinds as in C01's
+	// classes: emptyarr, null, emptystr, ...); true = not a violation of the caller's property
+	TolerateTag func(kind string) bool
 }
 
 // NewTraceModel returns an empty model.
+// (TraceModel.TolerateTag, when set, is asked for every tag-value difference kind "<written>-><returned>".)
+
 func NewTraceModel(s *TraceSchema) *TraceModel {
 	return &TraceModel{S: s, Traces: map[string][]*Span{}, byWid: map[int64]*Span{}}
 }
@@ -447,6 +452,19 @@ func (m *TraceModel) Collect(traces []*tracev1.Trace) (got map[string]*Returned,
 			}
 			if ref.SpanID != sp.GetSpanId() {
 				return got, "span-id-differs", fmt.Sprintf("trace %q span w%d: span id written %q returned %q", tr.GetTraceId(), w, ref.SpanID, sp.GetSpanId())
+			}
+			// value fidelity of the projected tags (C01's clause for the trace engine)
+			for _, t := range sp.GetTags() {
+				wv, known := ref.Tags[t.GetKey()]
+				if !known {
+					continue
+				}
+				if a, b := CanonTag(wv), CanonTag(t.GetValue()); a != b {
+					if m.TolerateTag != nil && m.TolerateTag(kindOf(a)+"->"+kindOf(b)) {
+						continue
+					}
+					return got, "tag-value-differs:" + kindOf(a) + "->" + kindOf(b), fmt.Sprintf("trace %q span w%d tag %s: written %s returned %s", tr.GetTraceId(), w, t.GetKey(), a, b)
+				}
 			}
 			r.Wids = append(r.Wids, w)
 		}
